@@ -15,7 +15,7 @@ FUNCTIONS = [S.Scheduler.allocate_tasks, S.Scheduler._generate_current_schedule,
              simh.BatchProcessing.run, simh.QueueProcessing.run, simh.DynamicSchedulingFromPlan.run, simh.Task.__hash__, DelayModel.generate_delay]
 META = {
     'bounds': {'C10.ready_set': '<= 3 tasks (all 6 iteration orders)', 'C10.machines': '2-3 heterogeneous (10, 20[, 20])', 'C10.observations': '2, start 0..2',
-               'C10.workflow': '3 tasks, shapes free / fork / join, compute 10..40', 'C10.algorithms': ['BatchProcessing', 'QueueProcessing', 'DynamicSchedulingFromPlan+static stub'],
+               'C10.workflow': '3 tasks, shapes free / fork / join, compute 10..40; integer node names, and string names sharing a trailing number (cal_1, img_1, cal_2)', 'C10.algorithms': ['BatchProcessing', 'QueueProcessing', 'DynamicSchedulingFromPlan+static stub'],
                'C10.real_seed_search': 'PYTHONHASHSEED 0..23 on a refutation'},
     'outside_bounds': ["CPython's actual probe sequence (orders are an over-approximation; cross-process equality is replayed, not proved)", 'ready sets > 3 tasks'],
     'stubs': simh.STUBS + ['E8b SaltedHash: the name hash in every topsim module -> builtin hash with string hashes salted per run', 'E10b SeedDelay: delay = seed % 3', 'E8 RankSet: the name set in every topsim module -> a set subclass whose iteration order (also of derived sets) is a solver-chosen permutation of tasks / machines'], 'assumptions': [],
